@@ -140,6 +140,31 @@ def build(cfg):
     return alias_factory_subclass_from_arg(FrameComputer, copy.deepcopy(cfg))
 
 
+# the constructors' parameters in the order the documentation gives them, with the documented defaults (written down here, not
+# read from the classes: a call that passes its arguments by position means them in this order)
+DOCUMENTED_ORDER = {
+    "stft": [("frame_length_ms", None), ("frame_shift_ms", 10), ("frame_style", None), ("include_energy", False), ("pad_to_nearest_power_of_two", True),
+             ("window_function", None), ("use_log", True), ("use_power", False), ("kaldi_shift", False)],
+    "si": [("frame_shift_ms", 10), ("frame_style", None), ("include_energy", False), ("pad_to_nearest_power_of_two", True), ("window_function", None),
+           ("use_power", False), ("use_log", True)],
+}
+
+
+def build_positional(cfg):
+    """the same computer built by calling the class with every argument given by position, in the documented order"""
+    from pydrobert.speech import compute as C
+    from . import userbank  # noqa: F401
+
+    import copy
+
+    cfg = copy.deepcopy(cfg)
+    name = cfg.pop("name")
+    cls = {"stft": C.ShortTimeFourierTransformFrameComputer, "si": C.ShortIntegrationFrameComputer}[name]
+    args = [cfg.pop("bank")] + [cfg.pop(k, dflt) for k, dflt in DOCUMENTED_ORDER[name]]
+    assert not cfg, cfg
+    return cls(*args)
+
+
 def build_bank(cfg):
     from pydrobert.speech.alias import alias_factory_subclass_from_arg
     from pydrobert.speech.filters import LinearFilterBank
@@ -149,7 +174,7 @@ def build_bank(cfg):
 
     cfg = copy.deepcopy(cfg)
     kinds = cfg.pop("_kinds", None) or {}
-    conv = {"int": int, "float": float, "np.int64": np.int64, "np.int32": np.int32, "np.float64": np.float64}
+    conv = {"int": int, "float": float, "np.int64": np.int64, "np.int32": np.int32, "np.float64": np.float64, "np.bool_": np.bool_}
     for k, t in kinds.items():
         if cfg.get(k) is not None:
             cfg[k] = conv[t](cfg[k])
